@@ -32,6 +32,17 @@ SOURCES = [
     ("list_str_none", "ty.Optional[list[str]]", "Optional[List[str]]", "v is None or (len(v) <= 2 and all(len(s) <= 2 for s in v))"),
     ("int_float", "ty.Union[int, float]", "ty.Union[int, float]", "True"),
     ("list_int_str", "list[ty.Union[int, str]]", "List[ty.Union[int, str]]", "len(v) <= 2 and all(not isinstance(s, str) or len(s) <= 1 for s in v)"),
+    ("dict_str_str", "dict[str, str]", "Dict[str, str]", "len(v) <= 2 and all(len(k) <= 2 and len(x) <= 2 for k, x in v.items())"),
+    ("dict_str_list_str", "dict[str, list[str]]", "Dict[str, List[str]]", "len(v) <= 1 and all(len(k) <= 2 and len(x) <= 2 and all(len(e) <= 1 for e in x) for k, x in v.items())"),
+]
+
+# targets that are unions of parameterised containers (the member a value goes through matters); pairs with these are never sampled out
+UNION_TARGETS = [
+    ("u_float_str", "ty.Union[float, str]"), ("u_listfloat_str", "ty.Union[list[float], str]"),
+    ("u_liststr_listint", "ty.Union[list[str], list[int]]"), ("u_listint_liststr", "ty.Union[list[int], list[str]]"),
+    ("u_listint_tupstr", "ty.Union[list[int], tuple[str, ...]]"), ("u_tupint_liststr", "ty.Union[tuple[int, ...], list[str]]"),
+    ("u_dictint_dictstr_none", "ty.Union[dict[str, int], dict[str, str], None]"),
+    ("dict_str_u_lists", "dict[str, ty.Union[list[float], list[str]]]"), ("u_int_listint", "ty.Union[int, list[int]]"),
 ]
 
 HELPERS = '''
@@ -67,7 +78,7 @@ def accepted_pairs():
         S = eval(sx, ns)
         for (tn, tx) in TYPES + [("int_float", "ty.Union[int, float]"), ("tuple_int_int", "tuple[int, int]"), ("list_float", "list[float]"),
                                  ("any", "ty.Any"), ("list_int_str", "list[ty.Union[int, str]]"), ("dict_str_float", "dict[str, float]"),
-                                 ("tuple_float_var", "tuple[float, ...]"), ("list_any", "list[ty.Any]")]:
+                                 ("tuple_float_var", "tuple[float, ...]"), ("list_any", "list[ty.Any]")] + UNION_TARGETS:
             Tt = eval(tx, ns)
             try:
                 TypeParser(Tt, superclass_auto_cast=False).check_type(S)
@@ -87,7 +98,10 @@ def build(tier, seed, exclude):
     pairs = accepted_pairs()
     rnd = random.Random(seed)
     if quick and len(pairs) > 90:
-        pairs = rnd.sample(pairs, 90)
+        keep = {t for t, _ in UNION_TARGETS}
+        always = [p for p in pairs if p[1][0] in keep]
+        rest = [p for p in pairs if p[1][0] not in keep]
+        pairs = always + rnd.sample(rest, max(0, min(len(rest), 90 - len(always) // 2)))
     to = 10 if quick else 40
     for (sn, sx, sa, spre), (tn, tx) in pairs:
         Tt = eval(tx, {"ty": ty, "Path": Path, "MultiInputObj": __import__("pydra.utils.typing", fromlist=["x"]).MultiInputObj})
